@@ -10,13 +10,18 @@ namespace Pops
     (the uniform draw u, or 1 - establishment probability when stochasticity is off) is strictly
     below susceptible / total population x weather x susceptibility; the accepting draws are
     therefore exactly the interval [0, p). The cell changes by exactly one S -> E/I host iff it
-    establishes. -/
+    establishes.
+    `hdom` (the cohort list of the model type is present) is not used by the proof but is kept on
+    purpose: on an empty `mortality_tracker_vector_` (SI) / `exposed_` (SEI) `add_disperser_at`
+    calls `.back()` on an empty vector (undefined behaviour), while the model's `addLast [] _ = []`
+    is total. -/
 theorem C12_establish_event (mt : ModelType) (c : Cell) (env : EnvCell) (sto : Bool) (pEst u p : Rat)
     (hdom : (mt = .si → c.mort ≠ []) ∧ (mt = .sei → c.e ≠ []))
     (hp : c.suitability env = .ok p) :
     ∃ c' k n, c.disperserTo mt env sto pEst u = .ok (c', k, n) ∧
       establishSpec c env sto pEst u k = true ∧ landingSpec mt c c' k = true ∧
       (k = 1 ↔ (c.s > 0 ∧ (if sto then u else 1 - pEst) < p)) := by
+  have _ := hdom  -- domain of the C++ (see the doc comment), not needed by the model
   exact mech_C12_establish mt c env sto pEst u p hp
 
 /-- Never when no susceptible host is present (and then no draw is consumed). -/
@@ -32,20 +37,26 @@ theorem C12_suitability_range_rejected (c : Cell) (env : EnvCell)
   exact mech_C12_suit_rejected c env h
 
 /-- Lethal temperature at a cold cell: every infected host returns to susceptible, the mortality
-    cohorts are emptied consistently, exposed hosts are untouched. -/
-theorem C12_lethal (c : Cell) (d : List Int) (hn : c.nonNeg = true) (ht : c.totalsOK = true)
+    cohorts are emptied consistently, exposed hosts are untouched. (The derived totals need not be
+    consistent: `totalsOK` is not a hypothesis.) -/
+theorem C12_lethal (c : Cell) (d : List Int) (hn : c.nonNeg = true)
     (hm : c.mortOK = true) (hd : ValidDraw c.mort c.i d) :
     lethalSpec true c (c.removeAllInfected d) = true ∧ (c.removeAllInfected d).mortOK = true ∧
     (∀ x ∈ (c.removeAllInfected d).mort, x = 0) := by
   exact mech_C12_lethal c d hn hm hd
 
 /-- Survival rate r < 1 keeps round(r x count) of the infected and of the exposed hosts and
-    returns the rest to susceptible; r >= 1 changes nothing. -/
+    returns the rest to susceptible; r >= 1 changes nothing. No consistency of the cell
+    (`nonNeg`, `totalsOK`, `mortOK`) is needed.
+    `hd` (ratio in [0,1], valid cohort draws) is not used by the proof but is kept on purpose: it
+    is what makes the cohorts the code draws from non-negative (`ValidDraw` bounds each draw by
+    its cohort); on a negative cohort `draw_n_from_cohorts` calls `vector::insert` with a negative
+    count (throws `std::length_error`), while the model is total. -/
 theorem C12_survival (c : Cell) (ratio : Rat) (dI dE : List Int)
-    (hn : c.nonNeg = true) (ht : c.totalsOK = true) (hm : c.mortOK = true)
     (hd : (CellOp.survival ratio dI dE).inDomain c) (c' : Cell)
     (h : (CellOp.survival ratio dI dE).apply c = .ok c') :
     survivalSpec ratio c c' = true := by
+  have _ := hd  -- domain of the C++ (see the doc comment), not needed by the model
   exact mech_C12_survival c ratio dI dE c' h
 
 example : ∃ (c : Cell) (env : EnvCell) (p : Rat), c.s > 0 ∧ c.suitability env = .ok p :=
